@@ -1,5 +1,53 @@
-"""C07: large candidate lists crossing the buffer-growth boundaries."""
+"""C07: candidate lists that cross the buffer-growth boundaries of _get_all_valid_alignments
+(initial capacity 10 000 entries, then 15 000, 22 500, 33 750)."""
+import random
+
+from . import alignrec as ar
+
+G_SCALE = 8
+
+
+def table_instance(rng, sizes, de, values, weights):
+    """An abstract instance with a random dyadic table (scaled by G_SCALE)."""
+    n = len(sizes)
+    D = [[[] for _ in range(n)] for _ in range(n)]
+    for a in range(n):
+        for b in range(a + 1, n):
+            D[a][b] = [[rng.choices(values, weights)[0] * de // 2 for _ in range(sizes[b])] for _ in range(sizes[a])]
+    return {"n": n, "sizes": sizes, "D": D, "de": de}
 
 
 def growth_records(pa, rng, quick):
-    return []
+    # (sizes, delta_empty (x8), pair values in half delta_empty units, weights): mostly below the cut, some above
+    specs = [([104, 104], 8, [0, 1, 2, 3, 4, 5, 6], [5, 5, 5, 5, 4, 0.6, 0.6])]      # 11 025 tuples: first growth (10 000)
+    if not quick:
+        specs += [([125, 125], 8, [0, 1, 2, 3, 4, 5], [4, 4, 4, 4, 2, 1]),             # 15 876 tuples: second growth (15 000)
+                  ([160, 160], 16, [0, 1, 2, 3, 4, 6], [4, 4, 4, 4, 2, 1]),            # 25 921 tuples: third growth (22 500)
+                  ([29, 29, 29], 8, [0, 1, 2, 3, 4, 6, 8], [3, 3, 3, 3, 2, 1, 1]),     # 27 000 tuples, 3 annotators
+                  ([12, 12, 12, 12], 8, [0, 2, 4, 6, 8, 10], [2, 3, 3, 2, 1, 1]),      # 28 561 tuples, 4 annotators
+                  ([7, 7, 7, 7, 7], 4, [0, 2, 4, 6, 8, 12, 16], [2, 3, 3, 2, 1, 1, 1])]  # 32 768 tuples, 5 annotators
+    recs = []
+    for sizes, de, values, weights in specs:
+        inst = table_instance(rng, sizes, de, values, weights)
+        c, d = ar.realise_table(pa, inst, G_SCALE)
+        dis, tup = d.valid_alignments(c)
+        # a minimal alignment object (every unit alone) carries the record; only ObsCands is judged on it
+        anns = list(c.annotators)
+        units = ar.units_by_annotator(c)
+        uas = []
+        for a, us in enumerate(units):
+            for u in us[:1]:
+                uas.append(pa.UnitaryAlignment([(anns[b], u if b == a else None) for b in range(len(anns))]))
+        al = pa.Alignment(uas, c)
+        al.compute_disorder(d)
+        rec = ar.make_record(pa, c, d, al, inst["D"], de, G_SCALE, "cover", 1, search=False, band=0, with_recompute=False,
+                             cands=(dis, tup), meta={"family": "growth", "sizes": sizes, "candidates": int(len(dis)),
+                                                     "tuples": int(__import__("math").prod(s + 1 for s in sizes))})
+        recs.append(rec)
+    need = [10000] if quick else [10000, 15000, 22500]
+    top = max(r["_meta"]["candidates"] for r in recs)
+    for b in need:
+        if not any(r["_meta"]["candidates"] > b for r in recs):
+            from .common import MachineryError
+            raise MachineryError(f"growth instances do not cross the {b} boundary (max {top})")
+    return recs
